@@ -1,14 +1,41 @@
 #!/bin/bash
 # run.sh <Cnn> <quick|thorough>   |   run.sh replay <path>
-# Rebuilds the checker from /repo's current working tree (go build is incremental) and runs one check.
+# Rebuilds the checkers from /repo's current working tree (go build is incremental) and runs one check.
 cd "$(dirname "$0")"
 export GOFLAGS=-mod=mod GOPROXY=off GOSUMDB=off GOTOOLCHAIN=local GOCACHE=/verif/.gocache
 export VERIF_ROOT="$(pwd)"
-mkdir -p bin evidence
+REPO=${VERIF_REPO:-/repo}
+mkdir -p bin evidence replays
+case "$1" in
+  C01|C12|C13|C14|C18)
+    # streams checks: regenerate the binding table from the current vocabulary files, then build
+    go run ./cmd/mkbind bind/zz_bind.go github.com/go-fed/activity/streams \
+       $REPO/astool/activitystreams.jsonld $REPO/astool/security-v1.jsonld $REPO/astool/toot.jsonld $REPO/astool/forgefed.jsonld || exit 2
+    if ! go build -trimpath -o bin/verifs ./cmd/verifs 2> bin/build-s.err; then
+      cat bin/build-s.err >&2
+      if grep -q "bind/zz_bind.go" bin/build-s.err; then
+        # the generated API lacks a type / property / predicate the ontology prescribes
+        cp bin/build-s.err replays/$1-binding-does-not-compile.txt
+        python3 - "$1" "$2" <<'PY'
+import json,sys
+id,tier=sys.argv[1],sys.argv[2]
+json.dump({"property_id":id,"tier":tier,"seed":0,"level":"exploration","wall_s":0.0,"violations":1,
+ "coverage":{"evaluations":1,"distinct_nontrivial":2,"rule":"binding table generated from the ontology must compile against the generated API","samples":["binding table does not compile"],"exhaustive":False}},
+ open("/verif/evidence/%s.json"%id,"w"),indent=1)
+PY
+        echo "VIOLATION property=$1 replay=$(pwd)/replays/$1-binding-does-not-compile.txt"
+        exit 1
+      fi
+      echo "BUILD-ERROR: the streams checker does not compile against the current tree" >&2
+      exit 2
+    fi
+    exec ./bin/verifs "$@"
+    ;;
+esac
 if ! go build -trimpath -o bin/verif ./cmd/verif 2> bin/build.err; then
   # A tree that no longer compiles against the checkers is a tool error, not a verdict.
   cat bin/build.err >&2
-  echo "BUILD-ERROR: the checker does not compile against /repo's current tree" >&2
+  echo "BUILD-ERROR: the checker does not compile against the current tree" >&2
   exit 2
 fi
 exec ./bin/verif "$@"
